@@ -104,9 +104,10 @@ def run(chk):
         start = rng.choice([0.0, 1.3])
         dt, N = 0.1, rng.randint(3, 5)
         eps = 1e-7
-        par = oqupy.TempoParameters(dt=dt, epsrel=eps, dkmax=3)
+        sub = rng.choice([None, 256])
+        par = oqupy.TempoParameters(dt=dt, epsrel=eps, dkmax=3, subdiv_limit=sub)
         driver = rng.choice(["tempo", "pttempo", "meanfield", "dynamics_with_field", "correlations", "controls"])
-        info = {"kind": "search", "driver": driver, "tau": tau, "start": start, "N": N}
+        info = {"kind": "search", "driver": driver, "tau": tau, "start": start, "N": N, "subdiv_limit": sub}
 
         def build(s0, sh):
             H = lambda t: 0.4 * SX + 0.3 * np.sin(1.7 * (t - sh)) * SZ
@@ -121,13 +122,13 @@ def run(chk):
                 sysm = oqupy.TimeDependentSystem(H, gammas=[G], lindblad_operators=[A])
                 pt = quiet(oqupy.pt_tempo_compute, bath, s0, s0 + N * dt + 1e-9, parameters=par, progress_type="silent")
                 if driver == "pttempo":
-                    d = quiet(oqupy.compute_dynamics, sysm, initial_state=rho0, process_tensor=pt, start_time=s0, progress_type="silent")
+                    d = quiet(oqupy.compute_dynamics, sysm, initial_state=rho0, process_tensor=pt, start_time=s0, subdiv_limit=sub, progress_type="silent")
                     return list(d.times), np.array(d.states)
                 if driver == "controls":
                     c = Control(2)
                     c.add_single(float(s0 + 1.3 * dt), oqupy.operators.left_right_super(SX, SX), False)
                     c.add_single(float(s0 + 2.0 * dt), oqupy.operators.left_right_super(SY, SY), True)
-                    d = quiet(oqupy.compute_dynamics, sysm, initial_state=rho0, process_tensor=pt, start_time=s0, control=c, progress_type="silent")
+                    d = quiet(oqupy.compute_dynamics, sysm, initial_state=rho0, process_tensor=pt, start_time=s0, control=c, subdiv_limit=sub, progress_type="silent")
                     return list(d.times), np.array(d.states)
                 t, cc = quiet(oqupy.compute_correlations, sysm, pt, SZ, SX, float(s0 + 1.0 * dt), (float(s0 + 0.2 * dt), float(s0 + (N - 0.3) * dt)),
                               initial_state=rho0, start_time=s0, progress_type="silent")
@@ -138,7 +139,7 @@ def run(chk):
                 d = quiet(oqupy.MeanFieldTempo(mfs, [bath], par, [rho0], 0.3 + 0j, s0).compute, s0 + N * dt + 1e-9, progress_type="silent")
             else:
                 pt = quiet(oqupy.pt_tempo_compute, bath, s0, s0 + N * dt + 1e-9, parameters=par, progress_type="silent")
-                d = quiet(oqupy.compute_dynamics_with_field, mfs, 0.3 + 0j, process_tensor_list=[pt], initial_state_list=[rho0], start_time=s0, progress_type="silent")
+                d = quiet(oqupy.compute_dynamics_with_field, mfs, 0.3 + 0j, process_tensor_list=[pt], initial_state_list=[rho0], start_time=s0, subdiv_limit=sub, progress_type="silent")
             return list(d.times), np.append(np.array(d.system_dynamics[0].states).reshape(-1), d.fields)
         try:
             t0, v0 = build(start, 0.0)
